@@ -103,8 +103,8 @@ func goCeremonyFromOpPlain(op M) *goCeremony {
 	}
 	g.kind = "authenticate"
 	g.authO = &webauthn.PublicKeyCredentialRequestOptions{Challenge: unhx(op["challenge"].(string)), UserVerification: webauthn.UserVerificationRequirement(unhx(op["uv"].(string)))}
-	for _, id := range hexList(op["allow"]) {
-		g.authO.AllowCredentials = append(g.authO.AllowCredentials, webauthn.PublicKeyCredentialDescriptor{Type: "public-key", ID: id})
+	for i, id := range hexList(op["allow"]) {
+		g.authO.AllowCredentials = append(g.authO.AllowCredentials, webauthn.PublicKeyCredentialDescriptor{Type: descriptorType(op, i), ID: id})
 	}
 	g.authC = &webauthn.PublicKeyAssertionCredential{RawID: unhx(op["rawId"].(string)),
 		Response: webauthn.AuthenticatorAssertionResponse{ClientDataJSON: unhx(op["cdj"].(string)), AuthenticatorData: unhx(op["authData"].(string)),
